@@ -159,6 +159,13 @@ class ConnModel(object):
             return W.Silence()
         if name in HS_STEPS:
             return self.handshake_step(name, world, conn)
+        if name.endswith('!fail'):
+            # the write of the automatic Pong for this Ping fails with a socket error
+            name = name[:-5]
+            if self.auto_pong and self.is_open:
+                world.fail_sendall.append(OSError(32, 'Broken pipe (injected on the pong write)'))
+                self.pong_fail = 1
+                self.sites.add('pong-write-fault')
         frames = FRAME_STEPS[name](self)
         for f in frames:
             self.expect_frame(f)
@@ -302,7 +309,9 @@ class ConnModel(object):
             self.hs = 'done'
             self.sites.add('ready')
         elif want[0] == 'ping':
-            if self.auto_pong and self.is_open:
+            if self.auto_pong and self.is_open and getattr(self, 'pong_fail', 0):
+                self.pong_fail -= 1          # this Pong could not be written: dropped silently
+            elif self.auto_pong and self.is_open:
                 self.exp_wire.append((PONG, want[1]))
                 self.sites.add('pong')
             elif self.auto_pong:
